@@ -7,19 +7,19 @@
   and one failing apiserver / provider call per move.  `run facts (init c) ms` is the state after the history `ms`;
   the driver `gxdrv_plugin` executes exactly these functions and the harness compares them with the real plugin.
 
-  FULL STATEMENT (property text):  for every history `ms` from `init c`, every pod `q` of API truth that was bound
-  by the plugin and has not finished owns every address of its binding annotation (memory and store: key = keyOf q,
+  STATEMENT (property text):  for every history `ms` from `init c`, every pod `q` of API truth that was bound by the
+  plugin and has not finished owns every address of its binding annotation (memory and store: key = keyOf q,
   uid = q.uid), and no move sends UnAssign for such an address.
-  What is proved is this statement under the side conditions `allAssumed` (decidable, see `Galaxy.Plugin.assumed`):
-    (a) names are non-empty;
-    (b) a reload keeps the addresses of live bound pods configured (the property says "reload that still contains
-        the IP") and its injected fault does not hit a store delete;
-    (c) at every `bind`: the pod lister shows the incarnation the API server has, and no record of another
-        incarnation is stored under the pod's key.
-  (c) is NOT guaranteed by the code: the two `_counter` theorems at the end show the full statement false on the
-  model without it, and the same histories break the real code (corpus/C04/stale-lister-bind.ops,
-  per-key-resync.ops; known findings bind-with-stale-lister-stores-old-uid and
-  stale-record-of-same-key-releases-live-pod-ip).  Hence the suffix `_partial`.
+  Scope = the decidable side conditions `allAssumed` (see `Galaxy.Plugin.assumed`), all of them the property's own:
+    (a) namespace, pod and owner names are non-empty and a bind request carries the pod UID (`args.PodUID`);
+    (b) a reload keeps the addresses of live bound pods configured ("no configuration reload that still contains the
+        IP").  The theorems additionally cover one failing apiserver / provider call per move, which the property's
+        quantifier (schedules, histories) does not ask for; in that extra dimension ONE fault position is excluded:
+        a failing store delete inside ConfigurePool (its error is ignored by the code, the stale object is resurrected
+        by a later reload that re-adds the address: corpus/C04/reload-delete-fault.ops, known finding).
+  The former side condition "the lister shows the API server's incarnation and no record of another incarnation is
+  under the key" is gone: Bind now checks both itself (facts bindChecksListerUID, bindUidGuardCoversWholeKey); the
+  two `_counter` theorems at the end show the statement false for the pre-fix variants of the code.
 -/
 import Galaxy.Lemmas.PluginMain
 
@@ -28,7 +28,8 @@ open Galaxy Galaxy.Plugin
 
 /-- The structural facts regenerated from /repo on this run are the shape the proofs are about: unbind ignores an
     event whose pod UID differs from a stored non-empty UID before any mutation; allocateIP refuses another
-    incarnation's IP; Release and the resync closure re-read ByIP under lockPod and compare keys; podRunning asks
+    incarnation's IP looking at ALL records of the key; Bind refuses a lister pod whose UID differs from args.PodUID;
+    Release and the resync closure re-read ByIP under lockPod and compare keys; podRunning asks
     the lister and then the API server and compares UIDs.  (`facts` is what `gxdrv_plugin` runs with.) -/
 theorem fact_plugin_shape : Galaxy.Plugin.facts = Facts.good := by decide
 
@@ -43,10 +44,11 @@ theorem fact_bind_reads_pod_from_lister : Generated.Plugin.bindReadsPodFromListe
 theorem fact_unbind_retry_limit : Generated.Plugin.unbindMaxRetries = 3 := by decide
 
 /-- "While a pod that was bound by galaxy-ipam still exists and has not finished, its IP stays assigned to it":
-    after EVERY finite history of moves (any admissible or inadmissible choices, any fault indices) whose side
-    conditions hold, every live bound pod owns each address of its binding annotation - in memory and in the store,
+    after EVERY finite history of moves (any admissible or inadmissible choices, any fault indices) within the
+    property's scope (`allAssumed`: non-empty names, bind requests carry the pod UID, reloads keep live pods' addresses
+    configured and their fault is not a ConfigurePool delete), every live bound pod owns each address of its binding annotation - in memory and in the store,
     under its own key and its own UID.  Covers all 17 moves. -/
-theorem live_bound_pod_keeps_ip_partial (c : Conf) (ms : List Move) (hok : allAssumed facts (init c) ms = true) :
+theorem live_bound_pod_keeps_ip (c : Conf) (ms : List Move) (hok : allAssumed facts (init c) ms = true) :
     ∀ q, LiveBound (run facts (init c) ms).pods q → ∀ hd, hd ∈ q.handed → OwnedBy (run facts (init c) ms) q hd.ip := by
   rw [fact_plugin_shape] at hok ⊢
   intro q hq hd hm
@@ -54,7 +56,7 @@ theorem live_bound_pod_keeps_ip_partial (c : Conf) (ms : List Move) (hok : allAs
 
 /-- "... nor ask the cloud provider to unassign it": in every reachable state, no move (whose side condition holds)
     appends an UnAssign request for an address that is in the binding annotation of a live bound pod. -/
-theorem no_unassign_for_live_pod_partial (c : Conf) (ms : List Move) (hok : allAssumed facts (init c) ms = true)
+theorem no_unassign_for_live_pod (c : Conf) (ms : List Move) (hok : allAssumed facts (init c) ms = true)
     (m : Move) (hm : assumed (run facts (init c) ms) m = true) (node : String) (ip : IP) (ok : Bool)
     (hreq : PCall.unassign node ip ok ∈ newRequests (run facts (init c) ms) (next facts (run facts (init c) ms) m)) :
     ¬ ∃ q, LiveBound (run facts (init c) ms).pods q ∧ ip ∈ q.ips := by
@@ -63,7 +65,7 @@ theorem no_unassign_for_live_pod_partial (c : Conf) (ms : List Move) (hok : allA
 
 /-- "no delete/finish event of an earlier same-named pod ... may free it": delivering ANY pending event in a reachable
     state leaves every live bound pod's addresses owned (special case of the invariant, stated for the event move). -/
-theorem late_event_keeps_ip_partial (c : Conf) (ms : List Move) (hok : allAssumed facts (init c) ms = true)
+theorem late_event_keeps_ip (c : Conf) (ms : List Move) (hok : allAssumed facts (init c) ms = true)
     (i fault pfault : Nat) :
     ∀ q, LiveBound (next facts (run facts (init c) ms) (.deliver i fault pfault)).pods q → ∀ hd, hd ∈ q.handed →
       OwnedBy (next facts (run facts (init c) ms) (.deliver i fault pfault)) q hd.ip := by
@@ -121,7 +123,14 @@ theorem live_bound_pod_keeps_ip_counter :
       Tbl.get (run factsNoGuard (init conf1) d2).alloc 168427522 = none := by
   refine ⟨by decide, ⟨by decide, by decide, by decide⟩, by decide⟩
 
-/-- bind while the lister still shows the previous incarnation; then the late delete event -/
+/-- the plugin before "fix: bind stored a stale pod uid ...": Bind does not compare the lister's pod with args.PodUID -/
+def factsNoListerCheck : Facts := { Facts.good with bindChecksListerUID := false }
+
+/-- ... and its "waiting for delete event" check only sees the records inside the requested ranges -/
+def factsNarrowGuard : Facts := { Facts.good with bindUidGuardCoversWholeKey := false }
+
+/-- bind (with the API server's UID, as the scheduler does) while the lister still shows the previous incarnation;
+    then the late delete event -/
 def staleBind : List Move := [
   .scale .sts "ns1" "a" 2,
   .createPod "ns1" "a-0" .sts "a" "" 0 [] true,
@@ -135,14 +144,22 @@ def staleBind : List Move := [
   .deliver 0 0 0 ]
 
 set_option maxRecDepth 100000 in
-/-- Side condition (c), first half, is necessary AS THE CODE STANDS: with the real facts, a bind that reads the
-    previous incarnation from a stale lister stores the old UID; the late delete event then passes the UID guard and
-    frees the live pod's address.  Reproduced on the real code (corpus/C04/stale-lister-bind.ops), known finding
-    bind-with-stale-lister-stores-old-uid. -/
+/-- WITHOUT the lister-UID check in Bind (pre-fix variant) the statement fails although every side condition holds:
+    the bind reads the previous incarnation from a stale lister and stores the old UID; the late delete event then
+    passes unbind's UID guard and frees the live pod's address.  (Found by this check on the real code, fixed in /repo
+    by "fix: bind stored a stale pod uid or bound beside an ip left by an earlier same-named pod"; regression replay
+    corpus/C04/stale-lister-bind.ops; `fact_plugin_shape` breaks if the check is removed again.) -/
 theorem stale_lister_bind_counter :
-    allAssumed facts (init conf1) staleBind = false ∧ LiveBound (run facts (init conf1) staleBind).pods podA2 ∧
-      Tbl.get (run facts (init conf1) staleBind).alloc 168427522 = none := by
+    allAssumed factsNoListerCheck (init conf1) staleBind = true ∧
+      LiveBound (run factsNoListerCheck (init conf1) staleBind).pods podA2 ∧
+      Tbl.get (run factsNoListerCheck (init conf1) staleBind).alloc 168427522 = none := by
   refine ⟨by decide, ⟨by decide, by decide, by decide⟩, by decide⟩
+
+set_option maxRecDepth 100000 in
+/-- with the check (the regenerated facts) the same history keeps the invariant's conclusion: the stale bind is refused -/
+example : allAssumed facts (init conf1) staleBind = true ∧
+    Tbl.get (run facts (init conf1) staleBind).pods ("ns1", "a-0") = some { podA2 with node := "", handed := [] } := by
+  refine ⟨by decide, by decide⟩
 
 def pool2 : Pool := { nodeSubnets := [⟨168362240, 24⟩], ranges := [(168427522, 168427523)], gateway := 168427521, bits := 24, vlan := 0 }
 def conf2 : Conf := { pools := [pool2], nodes := [("n1", 168362245)], provider := true }
@@ -165,13 +182,15 @@ def staleRecord : List Move := [
 def podA2' : Pod := { ns := "ns1", name := "a-0", uid := 2, kind := .sts, app := "a", pool := "", policy := 0, ranges := [[(168427523, 168427523)]], wants := true, phase := .pending, node := "n1", handed := [⟨168427523, 24, 168427521, 0⟩] }
 
 set_option maxRecDepth 100000 in
-/-- Side condition (c), second half, is necessary AS THE CODE STANDS: the resync closure decides per IP record but
-    releases per key, so a surviving record of an earlier incarnation under the same key takes the live pod's
-    address with it.  Reproduced on the real code (corpus/C04/per-key-resync.ops), known finding
-    stale-record-of-same-key-releases-live-pod-ip. -/
+/-- WITH the UID check of allocateIP restricted to the requested ranges (pre-fix variant) the statement fails although
+    every side condition holds: a surviving record of an earlier incarnation under the same key (lost event, other
+    range requested) is not seen by Bind, and resync - which decides per IP record but releases per key - takes the
+    live pod's address with it.  (Found by this check on the real code, fixed by the same commit; regression replays
+    corpus/C04/per-key-resync.ops and per-key-release.ops.) -/
 theorem stale_record_counter :
-    allAssumed facts (init conf2) staleRecord = false ∧ LiveBound (run facts (init conf2) staleRecord).pods podA2' ∧
-      Tbl.get (run facts (init conf2) staleRecord).alloc 168427523 = none := by
+    allAssumed factsNarrowGuard (init conf2) staleRecord = true ∧
+      LiveBound (run factsNarrowGuard (init conf2) staleRecord).pods podA2' ∧
+      Tbl.get (run factsNarrowGuard (init conf2) staleRecord).alloc 168427523 = none := by
   refine ⟨by decide, ⟨by decide, by decide, by decide⟩, by decide⟩
 
 end Galaxy.Props.C04
